@@ -106,6 +106,15 @@ func (e *Exec) sched(ctx context.Context, o plan.Outcome) {
 	for i := 0; i < o.Yield; i++ {
 		runtime.Gosched()
 	}
+	if o.SleepUS < 0 {
+		// tick schedule: sleep until the next multiple of the tick on the wall clock
+		tick := time.Duration(-o.SleepUS) * time.Microsecond
+		d := tick - time.Duration(time.Now().UnixNano())%tick
+		select {
+		case <-time.After(d):
+		case <-ctx.Done():
+		}
+	}
 	if o.SleepUS > 0 {
 		select {
 		case <-time.After(time.Duration(o.SleepUS) * time.Microsecond):
@@ -390,7 +399,7 @@ func (u *Universe) makeResolver(def *ast.Definition, fd *ast.FieldDefinition, ft
 			// echo fields always return their argument: the plan's default nulls do not apply
 			o = plan.Outcome{Kind: plan.Value}
 		}
-		if y, sl, w, sg := e.Plan.Sched(path); y+sl > 0 || w != "" || sg != "" {
+		if y, sl, w, sg := e.Plan.Sched(path); y != 0 || sl != 0 || w != "" || sg != "" {
 			o.Yield, o.SleepUS, o.Wait, o.Signal = o.Yield+y, o.SleepUS+sl, w, sg
 		}
 		e.sched(ctx, o)
